@@ -32,7 +32,8 @@ def gen_graph(rng):
         r = rng.random()
         defined = list(vars_)
         if r < 0.3 or not defined:
-            v = rng.choice([rng.randint(-20, 50), rng.randint(0, 9), rng.choice(STRS), [rng.randint(0, 9) for _ in range(rng.randint(1, 4))], True])
+            v = rng.choice([rng.randint(-20, 50), rng.randint(0, 9), rng.choice(STRS), [rng.randint(0, 9) for _ in range(rng.randint(1, 4))], True,
+                            [rng.choice([rng.randint(0, 9), rng.choice(["e", "pi", "mean", "log", "text", "two words", "1+1", "a;b", "x\\1y"])]) for _ in range(rng.randint(1, 4))]])
             vars_[nm] = ("lit", v)
         elif r < 0.5:
             vars_[nm] = ("ref", rng.choice(names))                 # may be forward, self or cyclic
@@ -108,7 +109,7 @@ def spell(sp):
     if sp[0] == "lit":
         v = sp[1]
         if isinstance(v, list):
-            return "( " + " ".join(str(x) for x in v) + " )"
+            return "( " + " ".join((str(x) if not isinstance(x, str) else (x if x.isalnum() else "'" + x + "'")) for x in v) + " )"
         if isinstance(v, bool):
             return "true" if v else "false"
         if isinstance(v, str):
